@@ -222,7 +222,7 @@ def r4_stream_read(cx):
         # offset argument is the cursor
         cx.ob("R4", "R4/read/from-cursor", ("field", "offset") in b.origins(rt["args"][1], through_calls=False), f, "Source::read is called at the cursor (self.offset)", ln=rt.get("ln"))
         oc = b.origin_calls(rt["args"][2])
-        mins = [(i, t) for i, t in oc if call_is(t, r"cmp::min")]
+        mins = [(i, t) for i, t in oc if call_is(t, r"cmp::min", r"Ord>::min$")]
         ok = len(mins) == 1
         if ok:
             mo = b.origins(mins[0][1]["args"][1]) | b.origins(mins[0][1]["args"][0])
